@@ -46,9 +46,19 @@ def strip_comments(src: str) -> str:
     return "".join(out)
 
 
+def props_modules(pid: str) -> list[str]:
+    """Props/<pid>.lean plus any Props/<pid>_*.lean (a property's theorems may be split over files)."""
+    d = os.path.join(LIB, "Props")
+    out = []
+    for f in sorted(os.listdir(d)):
+        if f == pid + ".lean" or (f.startswith(pid + "_") and f.endswith(".lean")):
+            out.append("BitstringModel.Props." + f[:-5])
+    return out
+
+
 def module_files(pid: str) -> list[str]:
-    """Transitive closure of the property's Props file over `import BitstringModel.*`."""
-    seen, todo = [], [f"BitstringModel.Props.{pid}"]
+    """Transitive closure of the property's Props files over `import BitstringModel.*`."""
+    seen, todo = [], props_modules(pid)
     while todo:
         m = todo.pop()
         if m in seen:
@@ -130,7 +140,7 @@ def prepare(pid: str, tier: str, log: list) -> dict:
             st["failures"].append({"kind": "model-import", "detail": m})
     # 2. build (models first so the driver can run even when a proof fails)
     model_mods = [m for m in mods if ".Model." in m or ".Gen." in m]
-    targets = ["BitstringModel.Props." + pid]
+    targets = props_modules(pid)
     if tier == "thorough":
         # clean rebuild of the property's own modules
         for m in mods:
@@ -154,13 +164,15 @@ def prepare(pid: str, tier: str, log: list) -> dict:
             if r2.returncode != 0:
                 st["model_ok"] = False
     # 3. axioms of every theorem in the property file (re-elaborated against the fresh .oleans)
-    names = theorem_names(props)
+    names = []
+    for m in props_modules(pid):
+        names += theorem_names(os.path.join(LEAN, *m.split(".")) + ".lean")
     st["theorems"] = names
     st["obligations"] = len(names)
     if r.returncode == 0 and names:
         audit = os.path.join(LEAN, ".lake", f"Audit_{pid}.lean")
         with open(audit, "w") as f:
-            f.write(f"import BitstringModel.Props.{pid}\n" + "".join(f"#print axioms {n}\n" for n in names))
+            f.write("".join(f"import {m}\n" for m in props_modules(pid)) + "".join(f"#print axioms {n}\n" for n in names))
         ra = run(["lake", "env", "lean", audit], 900)
         out = ra.stdout + ra.stderr
         log.append({"cmd": "lake env lean Audit", "rc": ra.returncode, "tail": out[-3000:]})
@@ -179,10 +191,10 @@ def prepare(pid: str, tier: str, log: list) -> dict:
             else:
                 st["discharged"] += 1
         if tier == "thorough":
-            rc = run(["lake", "env", "leanchecker", "BitstringModel.Props." + pid], 3000)
+            rc = run(["lake", "env", "leanchecker"] + props_modules(pid), 3000)
             log.append({"cmd": "leanchecker", "rc": rc.returncode, "tail": (rc.stdout + rc.stderr)[-2000:]})
             st["leanchecker_rc"] = rc.returncode
-            st["checker_cmd"] += f" && lake env leanchecker BitstringModel.Props.{pid}"
+            st["checker_cmd"] += " && lake env leanchecker " + " ".join(props_modules(pid))
             if rc.returncode != 0:
                 st["ok"] = False
                 st["failures"].append({"kind": "leanchecker", "detail": (rc.stdout + rc.stderr)[-500:]})
